@@ -472,7 +472,29 @@ func (c *Ctx) nonNilErrExpr(info *types.Info, e ast.Expr) bool {
 			return !isIface && !isPtr
 		}
 		o := callee(info, n)
-		return isPkgFunc(o, "fmt", "Errorf") || isPkgFunc(o, "errors", "New")
+		if isPkgFunc(o, "fmt", "Errorf") || isPkgFunc(o, "errors", "New") {
+			return true
+		}
+		// a module helper every return of which is such an expression (wrongType(requested))
+		if f, ok := o.(*types.Func); ok && f.Pkg() != nil && strings.HasPrefix(f.Pkg().Path(), modPath) {
+			if fd := c.decl(f); fd != nil && fd.Body != nil && fd.Type.Results != nil && len(fd.Type.Results.List) == 1 {
+				nRet, okAll := 0, true
+				ast.Inspect(fd.Body, func(nd ast.Node) bool {
+					if _, isLit := nd.(*ast.FuncLit); isLit {
+						return false
+					}
+					if rs, ok := nd.(*ast.ReturnStmt); ok {
+						nRet++
+						if len(rs.Results) != 1 || !c.nonNilErrExpr(info, rs.Results[0]) {
+							okAll = false
+						}
+					}
+					return true
+				})
+				return nRet > 0 && okAll
+			}
+		}
+		return false
 	case *ast.CompositeLit:
 		return true
 	case *ast.Ident:
